@@ -137,17 +137,53 @@ def _input_loop(cfg: CFG, p: Pair) -> Node:
 
 
 def _flag_tests(cfg: CFG, sc: Scope, flag: str):
-    """test nodes `flag.is_set()` -> the edge label on which the flag IS set."""
+    """test nodes involving `flag.is_set()` -> the edge label the test takes whenever the flag IS set
+    (`if flag.is_set()`, `if not flag.is_set()`, `if flag.is_set() or other`, `if not flag.is_set() and ...`)."""
+
+    def implied(t):
+        if isinstance(t, ast.Call) and method_of(t)[1] == 'is_set' and sc.canon(method_of(t)[0]) == flag:
+            return 'T'
+        if isinstance(t, ast.UnaryOp) and isinstance(t.op, ast.Not):
+            v = implied(t.operand)
+            return {'T': 'F', 'F': 'T'}.get(v)
+        if isinstance(t, ast.BoolOp):
+            vs = [implied(v) for v in t.values]
+            if isinstance(t.op, ast.Or):
+                return 'T' if 'T' in vs else ('F' if all(v == 'F' for v in vs) else None)
+            return 'F' if 'F' in vs else ('T' if all(v == 'T' for v in vs) else None)
+        return None
+
     out = {}
     for n in cfg.nodes:
         if n.kind != 'test':
             continue
-        t, neg = n.ast, False
-        while isinstance(t, ast.UnaryOp) and isinstance(t.op, ast.Not):
-            neg, t = not neg, t.operand
-        if isinstance(t, ast.Call) and method_of(t)[1] == 'is_set' and sc.canon(method_of(t)[0]) == flag:
-            out[n.id] = 'F' if neg else 'T'
+        lab = implied(n.ast)
+        if lab is not None:
+            out[n.id] = lab
     return out
+
+
+def _raises_next_item(body):
+    """`raise q.get()`, or `e = q.get()` (possibly awaited) directly followed by `raise e`.  The get must be the
+    blocking one: the producer puts the marker and the exception in two steps, a non-blocking get can find the
+    queue still empty."""
+
+    def blocking_get(v):
+        v = unwrap_await(v)
+        return isinstance(v, ast.Call) and method_of(v)[1] == 'get' and not any(k.arg == 'block' for k in v.keywords) and len(v.args) == 0
+
+    got = None
+    for b in body:
+        if isinstance(b, ast.Raise) and b.exc is not None:
+            if blocking_get(b.exc):
+                return True
+            v = unwrap_await(b.exc)
+            return isinstance(v, ast.Name) and v.id == got
+        if isinstance(b, ast.Assign) and len(b.targets) == 1 and isinstance(b.targets[0], ast.Name):
+            got = b.targets[0].id if blocking_get(b.value) else None
+        elif not isinstance(b, ast.Expr):
+            got = None
+    return False
 
 
 def check_terminal_item(ck: Checker, rid: str, p: Pair):
@@ -239,7 +275,7 @@ def check_vocabulary(ck: Checker, rid: str, p: Pair):
                     inst_sets.append((n, ii[1]))
                 if isinstance(t, ast.Compare) and isinstance(t.ops[0], ast.Eq) and isinstance(t.comparators[0], ast.Name):
                     eq_names.add(t.comparators[0].id)
-                    raise_get_after[t.comparators[0].id] = any(isinstance(b, ast.Raise) and isinstance(b.exc, ast.Call) and method_of(b.exc)[1] == 'get' for b in n.body)
+                    raise_get_after[t.comparators[0].id] = _raises_next_item(n.body)
     probs = []
     detail = []
     if sent_none:
